@@ -246,6 +246,11 @@ def trailing_label(rng, prev, domain):
             L = rng.choice(offs) - lab_off - 1
     L = max(len(keep), min(63, L))
     qt = rng.choice([D.T_NULL, D.T_TXT, D.T_CNAME, D.T_A, D.T_MX])
+    if rng.random() < 0.3:
+        # ... or the label behind type/class is complete and followed by the FIRST byte of a compression pointer as the
+        # very last byte of the datagram (the second byte would come from whatever lies behind it)
+        return hdr(rng.randrange(1, 65536), 0x0100, 1) + pre + bytes([0xC0 | (lab_off >> 8), lab_off & 0xFF]) + \
+            struct.pack(">HH", qt, 1) + bytes([len(keep)]) + keep + bytes([rng.choice([0xC0, 0xC0, 0xC1, 0xFF])])
     return hdr(rng.randrange(1, 65536), 0x0100, 1) + pre + bytes([0xC0 | (lab_off >> 8), lab_off & 0xFF]) + \
         struct.pack(">HH", qt, 1) + bytes([L]) + keep
 
@@ -348,6 +353,19 @@ def hostile_payload(rng, q):
         t = b".".join(q["labels"])
         return mutate(rng, t)
     return rng.choice(HANDSHAKE_TEXTS) + rbytes(rng, rng.randrange(0, 4))
+
+
+EDGE_SIZES = [4096, 4095, 4097, 4094, 2048, 2047, 4098, 1024, 5000, 512, 65000, 255, 256]
+
+
+def edge_reply(rng, q, idx):
+    """A matching, well-formed answer whose decoded payload has exactly the size of a buffer the client may be decoding
+    into (or one byte less / more), filled with bytes that are neither NUL nor the start of a handshake keyword."""
+    n = EDGE_SIZES[idx % len(EDGE_SIZES)]
+    fill = bytes([rng.choice(b"xyzq~\x7f\xff\x01")]) * n
+    qt = q["qtype"]
+    enc = "R" if qt in (D.T_NULL, D.T_PRIVATE, D.T_TXT) else rng.choice("TSUV")
+    return {"kind": "bufedge", "matched": True}, proto.build_data_answer(q["id"], q["labels"], qt, fill, enc)
 
 
 def client_reply(rng, q, real=None):
@@ -479,6 +497,9 @@ def answer_truncations(rng, real):
         fixed = 2 if rr.type == D.T_MX else 6 if rr.type == D.T_SRV else 0
         pre = real[rr.rdoff:rr.rdoff + fixed]
         lab = bytes([rng.choice([63, 40, 12])]) + rng.choice([b"h", b"i", b"j", b"k", b"hab"])
+        if rng.random() < 0.4:
+            # ... or a complete short label followed by the FIRST byte of a compression pointer as the last byte
+            lab = bytes([4]) + rng.choice([b"haaa", b"iabc", b"kzzz"]) + bytes([rng.choice([0xC0, 0xC0, 0xFF])])
         m2 = real[:rdl_off] + struct.pack(">H", len(pre) + len(lab)) + pre + lab
         return m2
     if k == 6 and rr.names:                             # name in rdata replaced by pointer to == len / beyond
